@@ -15,7 +15,7 @@
    LiveProofs.v. *)
 From LibcoapV Require Import Base.Tactics Exchange.Exchange Exchange.Accept Exchange.Spec
   Exchange.AcceptProofs Exchange.System Exchange.SystemProofs Exchange.GuardProofs
-  Exchange.Refute Exchange.LiveProofs.
+  Exchange.Refute Exchange.LiveProofs Exchange.ClientProofs.
 Local Open Scope Z_scope.
 
 (* The acceptor is sound: whatever produced the trace (the model, the real library under the
@@ -55,6 +55,21 @@ Theorem C07_non_once : forall cf cmid0 smid0 acts,
   ex_P_non (ex_sys_trace cf (ex_sys_init cmid0 smid0) acts).
 Proof. exact ex_system_non. Qed.
 Print Assumptions C07_non_once.
+
+(* The same three clauses hold for the client against ANY peer - every client state, every
+   input sequence, no honesty assumption on the datagrams (scripted-peer tier of the check). *)
+Theorem C07_client_con_acked : forall maxr c ins,
+  ex_P_conack (snd (ex_cli_run maxr c ins)).
+Proof. exact ex_client_conack. Qed.
+Print Assumptions C07_client_con_acked.
+
+Theorem C07_client_dup : forall maxr c ins, ex_P_dup (snd (ex_cli_run maxr c ins)).
+Proof. exact ex_client_dup. Qed.
+Print Assumptions C07_client_dup.
+
+Theorem C07_client_non_once : forall maxr c ins, ex_P_non (snd (ex_cli_run maxr c ins)).
+Proof. exact ex_client_non. Qed.
+Print Assumptions C07_client_non_once.
 
 (* "Never both, never twice".  Full-strength statement (all configurations):
      forall cf cmid0 smid0 acts, ex_P_once (ex_sys_trace cf (ex_sys_init cmid0 smid0) acts)
